@@ -1,5 +1,5 @@
 (* Compiled only when tap_cases_match_model fails: which cases differ, in which component
-   (root, items, api, parsed, tokens, translated, stream), and what the model computes for the
+   (root, items, api, parsed, tokens, translated, to_tap_tree, stream), and what the model computes for the
    first few of them. *)
 From Coq Require Import List NArith Bool Uint63.
 Import ListNotations.
@@ -12,7 +12,7 @@ Definition diag_bad := map (fun p => (N.of_nat (fst p), map b2n (snd p))) (faili
 Definition dflt : int * list int := (0%uint63, []).
 Definition diag_ok_model :=
   map (fun p => let c := decode_ok (nth (fst p) tap_ok dflt) in
-                (N.of_nat (fst p), k_root c, fst (fst (fst (fst (fst (model_ok c)))))))
+                (N.of_nat (fst p), k_root c, fst (fst (fst (fst (fst (fst (model_ok c))))))))
       (firstn 5 (failing check_ok tap_ok)).
 Definition diag_rej_model :=
   map (fun p => (N.of_nat (fst p), model_rej (decode_rej (nth (fst p) tap_rej dflt)))) (firstn 5 (failing check_rej tap_rej)).
